@@ -43,6 +43,10 @@ SchedParity(NP) == IF NP - 1 - SchedData(NP) >= 0 THEN NP - 1 - SchedData(NP) EL
 BuildThreshold(NP) == SchedData(NP)
 ReceiveThreshold(NP) == IF NP <= 3 THEN SchedData(NP) ELSE 2 * SchedData(NP)
 SchedConfig(NP) == <<SchedData(NP), SchedParity(NP)>>
+SchedNPs == (2..10) \cup {31, 100}       \* committee sizes whose thresholds are checked and replayed
+(* NewScheduler refuses a committee of one, duplicate peers, and a local peer that is not a member *)
+NewSchedulerKinds == {"ok", "single", "duplicate", "localmissing", "empty"}
+NewSchedulerOutcome(kind) == IF kind = "ok" THEN "scheduler" ELSE "err"
 
 (* shard index -> broadcasting peer (peers are positions 0..NP-1 of the sorted committee; the
    publisher's position is skipped) and back *)
@@ -115,7 +119,7 @@ CorWhat(f, benign) ==
    NP peers, local position loc, true publisher pub; the unit is honest unit u except for field f;
    seen = honest unit u was accepted before; cached = the validator already verified a signature
    (only meaningful for fields outside the key); nz = the publisher used nonce 0. *)
-ValidateFields == {"none", "shard", "shardlen", "noshards", "twoshards", "index", "indexoob", "proof", "proofshort",
+ValidateFields == {"none", "shard", "shardlen", "noshards", "twoshards", "index", "indexoob", "indexmax", "proof", "proofshort",
                    "root", "sig", "sigempty", "committee", "publisher", "publisherself", "publisherout", "nonce",
                    "sender", "senderself"}
 KeyFields == {"root", "committee", "publisher", "publisherself", "publisherout", "nonce"}
@@ -123,7 +127,10 @@ KeyFields == {"root", "committee", "publisher", "publisherself", "publisherout",
 OtherPeer(NP, a, b) == IF {x \in 0..(NP - 1) : x # a /\ x # b} = {} THEN NP       \* (NP = 2: nobody)
                        ELSE SetMin({x \in 0..(NP - 1) : x # a /\ x # b})
 (* the shard index the unit claims *)
-IdxOf(NP, u, f, j) == IF f = "index" THEN j ELSE IF f = "indexoob" THEN NP - 1 ELSE u
+IdxOf(NP, u, f, j) == CASE f = "index" -> j
+                        [] f = "indexoob" -> NP - 1            \* first index out of range
+                        [] f = "indexmax" -> NP + 1000000000  \* stands for 2^32 - 1, the largest a unit can carry
+                        [] OTHER -> u
 
 (* ValidateSt: the validator with its state made explicit: acc = the shard indices it ACCEPTED so far
    (receivedShards), cached = it holds a verified signature (set when, and only when, a unit was
@@ -136,7 +143,7 @@ ValidateSt(NP, loc, pub, u, f, j, acc, cached, nz) ==
              [] OTHER -> pub
       hs == HonestSender(pub, loc, u)
       sender == IF f = "sender" THEN OtherPeer(NP, hs, loc) ELSE IF f = "senderself" THEN loc ELSE hs
-      leafOK == FixLeaf /\ f \notin {"shard", "shardlen", "proof", "proofshort", "root", "index", "indexoob"}
+      leafOK == FixLeaf /\ f \notin {"shard", "shardlen", "proof", "proofshort", "root", "index", "indexoob", "indexmax"}
       nonceOK == (FixNonce \/ nz) /\ f # "nonce"
       freshSigOK == f \notin {"sig", "sigempty", "committee", "publisher", "publisherself", "publisherout"} /\ nonceOK
       sigOK == IF cached /\ f \notin KeyFields THEN f \notin {"sig", "sigempty"} ELSE freshSigOK
@@ -167,7 +174,7 @@ SessionVerdict(NP, loc, pub, u, f, j, st) ==
       sender == IF f = "sender" THEN OtherPeer(NP, hs, loc) ELSE IF f = "senderself" THEN loc ELSE hs
   IN IF i \in st.acc THEN "dup"
      ELSE IF ~OriginOK(NP, loc, sender, pub, i) THEN "origin"
-     ELSE IF f \in {"noshards", "twoshards", "shard", "shardlen", "proof", "proofshort", "index", "indexoob"} THEN "shards"
+     ELSE IF f \in {"noshards", "twoshards", "shard", "shardlen", "proof", "proofshort", "index", "indexoob", "indexmax"} THEN "shards"
      ELSE IF f \in {"sig", "sigempty"} THEN "sig"
      ELSE "ok"
 SessionStep(NP, loc, pub, u, f, j, st) ==
@@ -354,7 +361,7 @@ PaddingOK ==
      IN /\ (P % (2 * d)) = 0 /\ P >= VarintLen(L) + L /\ P - (VarintLen(L) + L) < 2 * d
         /\ ShardSize(L, d) >= 2 /\ ShardSize(L, d) * d = P
 ThresholdsOK ==
-  \A NP \in 2..10 :
+  \A NP \in SchedNPs :
      /\ SchedData(NP) + SchedParity(NP) = NP - 1
      /\ BuildThreshold(NP) >= 1
      /\ ReceiveThreshold(NP) >= BuildThreshold(NP)
